@@ -137,8 +137,13 @@ impl World {
         // of one purpose with one subject, of which only the second anchors the certificates in use
         let old_iaca = crate::pki::root_cert(&SigningKey::random(rng), "CN=Test IACA,C=US", 8);
         let old_reader_ca = crate::pki::root_cert(&SigningKey::random(rng), "CN=Test Reader CA,C=US", 9);
-        let rdr_reg = sess::registry(vec![(old_iaca.clone(), TrustPurpose::Iaca), (pki.iaca.clone(), TrustPurpose::Iaca), (pki.reader_ca.clone(), TrustPurpose::ReaderCa)]);
-        let dev_reg = sess::registry(vec![(old_reader_ca, TrustPurpose::ReaderCa), (pki.reader_ca.clone(), TrustPurpose::ReaderCa), (old_iaca, TrustPurpose::Iaca), (pki.iaca.clone(), TrustPurpose::Iaca)]);
+        // ... and the EXPIRED earlier issue and the NOT YET VALID next issue of the current roots (same name, same key), as a
+        // registry looks after roots were renewed: neither may be used now, both are part of the configured state
+        let twin = |key: &SigningKey, name: &str, serial: u64, future: bool| if future { crate::pki::root_cert_valid(key, name, serial, 4_000_000_000, 4_100_000_000) } else { crate::pki::root_cert_valid(key, name, serial, 1_000_000_000, 1_100_000_000) };
+        let rdr_reg = sess::registry(vec![(old_iaca.clone(), TrustPurpose::Iaca), (twin(&pki.iaca_key, "CN=Test IACA,C=US", 6, false), TrustPurpose::Iaca), (pki.iaca.clone(), TrustPurpose::Iaca),
+            (twin(&pki.iaca_key, "CN=Test IACA,C=US", 16, true), TrustPurpose::Iaca), (pki.reader_ca.clone(), TrustPurpose::ReaderCa)]);
+        let dev_reg = sess::registry(vec![(old_reader_ca, TrustPurpose::ReaderCa), (twin(&pki.reader_ca_key, "CN=Test Reader CA,C=US", 5, false), TrustPurpose::ReaderCa), (pki.reader_ca.clone(), TrustPurpose::ReaderCa),
+            (twin(&pki.reader_ca_key, "CN=Test Reader CA,C=US", 15, true), TrustPurpose::ReaderCa), (old_iaca, TrustPurpose::Iaca), (pki.iaca.clone(), TrustPurpose::Iaca)]);
         // every other holder's stored documents share one `Document::id`
         let docs = if ndocs >= 2 && rng.gen_bool(0.5) { sess::documents_of_same_id(mdocs.clone()) } else { sess::documents_of(mdocs.clone()) };
         let e = sess::establish(docs, None, &specs[0], rdr_reg, dev_reg)
